@@ -126,6 +126,12 @@ def monitorSign (prop : String) (res : Sign.Result) (isRemote : Bool) (keyMatche
       | none => pure ()
     return none
   | .err _ _ =>
+    -- C08: whatever `Sign` hands back as an envelope must verify (a request the model refuses and the implementation signs
+    -- into bytes nobody can verify is a concrete failure of "the produced envelope parses and verifies")
+    if prop == "C08" && iok && keyMatchesLeaf then
+      match fldOpt impl "verified" with
+      | some v => if !(← fldBool v "ok") then return some "produced_envelope_does_not_verify"
+      | none => pure ()
     if iok then return (if prop == "C16" || prop == "C03" then some "invalid_request_produced_an_envelope"
                         else if prop == "C02" then some "signer_accepted_though_the_model_rejects_its_key_or_announced_algorithm" else none)
     if prop != "C16" then return none
